@@ -1254,10 +1254,19 @@ func (u *Unit) builtin(st *State, fr *Frame, site ssa.Instruction, c *ssa.CallCo
 			k(st, fr, Val{T: u.mapLenOf(st, t, a)})
 		case *types.Chan:
 			k(st, fr, Val{T: u.FreshOfType(st, "chlen", types.Typ[types.Int])})
-		default:
+		case *types.Slice:
 			l := App("vlen", SInt, a)
 			u.Axiom(Ge(l, IntLit(0)))
-			st.Assume(Le(l, Atom("9223372036854775807", SInt)))
+			// a slice cannot be longer than the address space allows for its element size
+			sz := types.SizesFor("gc", "amd64").Sizeof(t.Elem())
+			if sz < 1 {
+				sz = 1
+			}
+			u.Axiom(Le(Mul(l, IntLit(sz)), maxInt))
+			k(st, fr, Val{T: l})
+		default:
+			l := App("vlen", SInt, a)
+			u.Axiom(And(Ge(l, IntLit(0)), Le(l, maxInt)))
 			k(st, fr, Val{T: l})
 		}
 		return
@@ -1319,8 +1328,10 @@ func (u *Unit) builtin(st *State, fr *Frame, site ssa.Instruction, c *ssa.CallCo
 	k(st, fr, Val{T: NilV})
 }
 
-// doAppend models append(s, e...) as a fresh slice with a fresh backing array
-// whose first len(s) elements equal s and the rest equal e.
+// doAppend models append(s, e...) exactly: if len(s)+len(e) <= cap(s) the
+// elements are written in place into s's backing array (visible through every
+// slice header that shares it), otherwise the result has a fresh backing array
+// holding s's elements followed by e's.
 func (u *Unit) doAppend(st *State, fr *Frame, site ssa.Instruction, c *ssa.CallCommon, args []Val, k CallK) {
 	s, e := args[0].T, args[1].T
 	sl, ok := c.Args[0].Type().Underlying().(*types.Slice)
@@ -1329,26 +1340,105 @@ func (u *Unit) doAppend(st *State, fr *Frame, site ssa.Instruction, c *ssa.CallC
 		k(st, fr, Val{T: u.Fresh("append", SV)})
 		return
 	}
-	ls, le := App("vlen", SInt, s), Term{}
+	ls := App("vlen", SInt, s)
+	var le Term
 	if e.Sort == SStr { // append([]byte, string...)
 		le = u.strLen(e)
 	} else {
-		le = App("vlen", SInt, e)
+		le = u.vlenOf(e)
 	}
-	u.Axiom(Ge(ls, IntLit(0)))
+	u.Axiom(And(Ge(ls, IntLit(0)), Le(ls, App("vcap", SInt, s)), Le(App("vcap", SInt, s), maxInt)))
+	u.Axiom(Ge(le, IntLit(0)))
 	n := Add(ls, le)
-	r := u.newSlice(st, "append", n, u.Fresh("appcap", SInt))
-	st.Assume(Ge(App("vcap", SInt, r), n))
-	u.assume("append always yields a fresh backing array (spare capacity shared between slice headers is not modelled)")
-	// content: new memory equal to old except inside the new backing array, where
-	// element i is s[i] for i < len(s) and e[i-len(s)] otherwise.
+	fits := Le(n, App("vcap", SInt, s))
+	fitsFeas := u.Feasible(st, fits)
+	growFeas := u.Feasible(st, Not(fits))
+	if fitsFeas {
+		s2, f2 := st, fr
+		if growFeas {
+			s2, f2 = st.Clone(), fr.cloneFor()
+		}
+		s2.Assume(fits)
+		u.appendInPlace(s2, f2, sl, s, e, ls, le, n, k)
+	}
+	if growFeas {
+		st.Assume(Not(fits))
+		u.appendGrow(st, fr, sl, s, e, ls, le, n, k)
+	}
+}
+
+func (u *Unit) appendInPlace(st *State, fr *Frame, sl *types.Slice, s, e, ls, le, n Term, k CallK) {
+	r := u.Fresh("appendip", SV)
+	sp, so := u.sptrOf(s), u.soffOf(s)
+	st.Assume(Eq(App("vlen", SInt, r), n))
+	st.Assume(Eq(App("vcap", SInt, r), App("vcap", SInt, s)))
+	u.Axiom(Eq(App("sptr", SV, r), sp))
+	u.Axiom(Eq(App("soff", SInt, r), so))
+	u.Axiom(Neq(r, NilV))
+	u.slices[r.String()] = sliceInfo{ptr: sp, off: so, len: n, cap: App("vcap", SInt, s)}
+	if e.Sort == SStr {
+		u.abstracted("append of string bytes in place")
+		k(st, fr, Val{T: r})
+		return
+	}
+	ep, eo := u.sptrOf(e), u.soffOf(e)
+	if lv, isLit := intVal(le); isLit && lv.IsInt64() && lv.Int64() <= 4 {
+		// a few explicit elements: plain stores
+		for i := int64(0); i < lv.Int64(); i++ {
+			v := u.load(st, u.elemAddr(ep, Add(eo, IntLit(i))), sl.Elem())
+			u.store(st, u.elemAddr(sp, Add(so, Add(ls, IntLit(i)))), sl.Elem(), v)
+		}
+		k(st, fr, Val{T: r})
+		return
+	}
+	// general case: positions [len(s), len(s)+len(e)) of the backing array take e's elements
 	keys := map[string]bool{}
 	u.leafKeys(sl.Elem(), keys)
-	rp := App("sptr", SV, r)
-	sp, so := App("sptr", SV, s), App("soff", SInt, s)
+	var ks []string
+	for key := range keys {
+		ks = append(ks, key)
+	}
+	sort.Strings(ks)
+	for _, key := range ks {
+		if _, ok := st.MemSort[key]; !ok {
+			u.getMem(st, key, u.sortOfKey(sl.Elem(), key))
+		}
+		elemSort := st.MemSort[key]
+		old := u.curMem(st, key)
+		nm := u.Fresh("Mapi_"+shorten(sanitize(key), 30), ArrSort(SV, elemSort))
+		lo, hi := Add(so, ls), Add(so, n)
+		d := &MemDeriv{Old: old, Elem: elemSort, Kind: "frame"}
+		d.Modified = func(addr Term) Term {
+			if idx, _, ok := splitElemPathAny(addr); ok {
+				base := elemBase(addr)
+				return And(Eq(base, sp), Le(lo, idx), Lt(idx, hi))
+			}
+			// opaque address: inside the backing array object
+			return Eq(App("aobj", SV, addr), App("aobj", SV, sp))
+		}
+		d.NewVal = func(addr Term) (Term, bool) {
+			idx, rebuild, ok := splitElemPathAny(addr)
+			if !ok {
+				return Term{}, false
+			}
+			return u.selectMem(st, old, rebuild(u.elemAddr(ep, Add(eo, Sub(idx, lo)))), elemSort, 1), true
+		}
+		st.Derivs[nm.A] = d
+		st.Mem[key] = nm
+	}
+	k(st, fr, Val{T: r})
+}
+
+func (u *Unit) appendGrow(st *State, fr *Frame, sl *types.Slice, s, e, ls, le, n Term, k CallK) {
+	r := u.newSlice(st, "append", n, u.Fresh("appcap", SInt))
+	st.Assume(Ge(App("vcap", SInt, r), n))
+	keys := map[string]bool{}
+	u.leafKeys(sl.Elem(), keys)
+	rp := u.sptrOf(r)
+	sp, so := u.sptrOf(s), u.soffOf(s)
 	var ep, eo Term
 	if e.Sort != SStr {
-		ep, eo = App("sptr", SV, e), App("soff", SInt, e)
+		ep, eo = u.sptrOf(e), u.soffOf(e)
 	}
 	var ks []string
 	for key := range keys {
@@ -1356,11 +1446,10 @@ func (u *Unit) doAppend(st *State, fr *Frame, site ssa.Instruction, c *ssa.CallC
 	}
 	sort.Strings(ks)
 	for _, key := range ks {
-		elemSort, ok := st.MemSort[key]
-		if !ok {
+		if _, ok := st.MemSort[key]; !ok {
 			u.getMem(st, key, u.sortOfKey(sl.Elem(), key))
-			elemSort = st.MemSort[key]
 		}
+		elemSort := st.MemSort[key]
 		old := u.curMem(st, key)
 		nm := u.Fresh("Mapp_"+shorten(sanitize(key), 30), ArrSort(SV, elemSort))
 		d := &MemDeriv{Old: old, Elem: elemSort, Kind: "frame"}
@@ -1376,7 +1465,6 @@ func (u *Unit) doAppend(st *State, fr *Frame, site ssa.Instruction, c *ssa.CallC
 		}
 		if e.Sort != SStr {
 			d.NewVal = func(addr Term) (Term, bool) {
-				// addr = path(ia(rp, i)): map to the same path under s or e
 				i, rebuild, ok := splitElemPath(addr, rp)
 				if !ok {
 					return Term{}, false
@@ -1390,6 +1478,39 @@ func (u *Unit) doAppend(st *State, fr *Frame, site ssa.Instruction, c *ssa.CallC
 		st.Mem[key] = nm
 	}
 	k(st, fr, Val{T: r})
+}
+
+// splitElemPathAny decomposes addr = f1(...(ia(base, i))) for any base.
+func splitElemPathAny(addr Term) (idx Term, rebuild func(Term) Term, ok bool) {
+	var fas []string
+	cur := addr
+	for strings.HasPrefix(cur.Op, "fa_") {
+		fas = append(fas, cur.Op)
+		cur = cur.Args[0]
+	}
+	if cur.Op != "ia" {
+		return Term{}, nil, false
+	}
+	idx = cur.Args[1]
+	rebuild = func(elem Term) Term {
+		t := elem
+		for i := len(fas) - 1; i >= 0; i-- {
+			t = App(fas[i], SV, t)
+		}
+		return t
+	}
+	return idx, rebuild, true
+}
+
+func elemBase(addr Term) Term {
+	cur := addr
+	for strings.HasPrefix(cur.Op, "fa_") {
+		cur = cur.Args[0]
+	}
+	if cur.Op == "ia" {
+		return cur.Args[0]
+	}
+	return cur
 }
 
 func (u *Unit) sortOfKey(t types.Type, key string) Sort {
